@@ -125,6 +125,11 @@ def sequences(quick=True):
         sc = _sc(pos, label, pair, True, cat, attempts=3, family="sequence")
         sc["ca_opts"] = {"same_leaf": "leaf", "valid_secs": 86400, "chain_len": [3, 2, 1]}
         out.append(sc)
+    # the CA includes its self-signed ROOT as the last certificate of every chain (mock CA option `chain_root`): chains of
+    # 3, 2 and 4 served to one process, the second download cut short
+    sc = _sc(("cert", 1), "cert-truncated", True, True, cat, attempts=3, family="sequence")
+    sc["ca_opts"] = {"same_leaf": "leaf", "valid_secs": 86400, "chain_len": [3, 2, 4], "chain_root": True}
+    out.append(sc)
     # the FIRST issuance of the process is served for a subset of the names (no protocol fault at all), the following ones
     # for all of them: whatever the first attempt does with that certificate, every attempt ends with a matching pair
     for pair, kp in (CLASSES[2:] if quick else CLASSES):
